@@ -13,9 +13,11 @@ import (
 	"net"
 	"os"
 	"sync"
+	"sync/atomic"
 	"testing"
 	"time"
 
+	"hop.computer/hop/pkg/verifhook"
 	"pgregory.net/rapid"
 	"verif.local/vlib"
 	"verif.local/vlib/simnet"
@@ -44,15 +46,28 @@ type c03Case struct {
 	SrvW     [][]c03Write  `json:"srvWriters"`
 	Script   []c03Action   `json:"script"`
 	Fam      int           `json:"fam,omitempty"` // address family of the fixture addresses (simnet.Family)
+	// Yields: schedule for the yield point at the entry of the packet send path (before any lock is taken): the k-th
+	// arrival there, counted over all writers of the case, sleeps Yields[k mod len] virtual microseconds (0: no pause).
+	// Spreads the interleavings of overlapping Write / WriteMsg calls of concurrent writers.
+	Yields []int `json:"yields,omitempty"`
+	// NoGap: the writers issue their calls back to back (default: one virtual millisecond between two calls of a writer)
+	NoGap bool `json:"noGap,omitempty"`
 }
+
+const c03YieldPoint = "transport.Handle.send.enter"
 
 const c03Hdr = 24
 
 // payload: 24-byte header (magic, dir, writer, seq, size, seed) + keyed bytes
+// Sizes below the header length (0 = the empty message, 1..23) give header-less keyed bytes: such messages carry no
+// identification of their own and are judged by multiset count per reader.
 func c03Payload(dir, writer, seq int, w c03Write) []byte {
 	n := w.Size
 	if n < c03Hdr {
-		n = c03Hdr
+		if n < 0 {
+			n = 0
+		}
+		return append([]byte{}, vlib.Fill(w.Seed^0x5151, n)...)
 	}
 	b := make([]byte, c03Hdr, n)
 	copy(b, "C03>")
@@ -85,6 +100,7 @@ type c03End struct {
 	conn     MsgConn
 	mu       sync.Mutex
 	expected map[string]int // hash-free: message bytes -> outstanding count
+	optionalEmpty int       // empty messages that MAY arrive (zero-length Write calls): allowed, never demanded
 	order    map[int][][]byte // per writer: expected messages in order
 	got      [][]byte
 	closedEarly bool
@@ -295,6 +311,20 @@ func c03Scenario(c c03Case, v *vlib.Verdict) {
 		out = append(out, post...)
 		return out
 	}
+	// ---- yield schedule of the writers
+	if len(c.Yields) > 0 {
+		var hits atomic.Int64
+		verifhook.Set(func(point string) {
+			if point != c03YieldPoint {
+				return
+			}
+			k := int(hits.Add(1) - 1)
+			if us := c.Yields[k%len(c.Yields)]; us > 0 {
+				time.Sleep(time.Duration(us) * time.Microsecond)
+			}
+		})
+		defer verifhook.Set(nil)
+	}
 	// ---- expected messages, readers, writers
 	mk := func(name string, conn MsgConn) *c03End {
 		return &c03End{name: name, conn: conn, expected: map[string]int{}, order: map[int][][]byte{}}
@@ -317,6 +347,12 @@ func c03Scenario(c c03Case, v *vlib.Verdict) {
 				p.bufs = append(p.bufs, b)
 				if wr.Msg && len(b) > MaxPlaintextSize {
 					continue // must be refused, nothing expected
+				}
+				if !wr.Msg && len(b) == 0 {
+					// Write of zero bytes: there is no byte to deliver. The implementation sends one empty packet; the
+					// statement does not demand it, so an empty message is allowed for it but not required.
+					to.optionalEmpty++
+					continue
 				}
 				for _, ch := range c03Chunks(wr, b) {
 					to.expected[string(ch)]++
@@ -360,6 +396,11 @@ func c03Scenario(c c03Case, v *vlib.Verdict) {
 				e.mu.Unlock()
 				continue
 			}
+			if len(m) == 0 && e.optionalEmpty > 0 {
+				e.optionalEmpty--
+				e.mu.Unlock()
+				continue
+			}
 			e.mu.Unlock()
 			if len(m) >= 4 && string(m[:4]) == "C03?" {
 				continue // probe messages are handled below
@@ -370,7 +411,7 @@ func c03Scenario(c c03Case, v *vlib.Verdict) {
 					if bytes.Equal(b, m) || (len(m) > 32 && bytes.Contains(b, m)) {
 						if p.to == e {
 							kind = "delivered-twice"
-						} else {
+						} else if kind == "never-written" {
 							kind = "written-on-another-session-or-direction"
 						}
 					}
@@ -408,7 +449,9 @@ func c03Scenario(c c03Case, v *vlib.Verdict) {
 				if !r.v.OK() {
 					return
 				}
-				time.Sleep(time.Millisecond)
+				if !c.NoGap {
+					time.Sleep(time.Millisecond)
+				}
 			}
 		}(p)
 	}
@@ -462,7 +505,14 @@ func c03Scenario(c c03Case, v *vlib.Verdict) {
 			for m, n := range e.expected {
 				missing += n
 				if n > 0 && len(which) < 4 {
-					which = append(which, fmt.Sprintf("writer %d seq %d size %d", m[5], binary.BigEndian.Uint16([]byte(m[6:8])), len(m)))
+					switch {
+					case len(m) >= c03Hdr && m[:4] == "C03>":
+						which = append(which, fmt.Sprintf("writer %d seq %d size %d", m[5], binary.BigEndian.Uint16([]byte(m[6:8])), len(m)))
+					case len(m) < c03Hdr:
+						which = append(which, fmt.Sprintf("%d x the %d-byte message", n, len(m)))
+					default:
+						which = append(which, fmt.Sprintf("a later packet of a multi-packet Write, %d bytes", len(m)))
+					}
 				}
 			}
 			if missing > 0 {
@@ -499,7 +549,9 @@ func c03Scenario(c c03Case, v *vlib.Verdict) {
 				if len(b) >= c03Hdr+16 {
 					markers = append(markers, b[c03Hdr:c03Hdr+16])
 				}
-				markers = append(markers, b[:c03Hdr])
+				if len(b) >= c03Hdr {
+					markers = append(markers, b[:c03Hdr])
+				}
 			}
 		}
 		markers = append(markers, []byte("server.verif.test"), []byte("client-one"), w.SrvKey.Public[:], w.CliKey.Public[:])
@@ -550,6 +602,42 @@ func c03Scenario(c c03Case, v *vlib.Verdict) {
 	if len(c.CliW) > 1 || len(c.SrvW) > 1 {
 		v.Label("concurrent-writers")
 	}
+	for ei, ws := range [][][]c03Write{c.CliW, c.SrvW} {
+		nw := 0 // writers of this end that call Write at least once
+		for _, lst := range ws {
+			for _, wr := range lst {
+				if !wr.Msg {
+					nw++
+					break
+				}
+			}
+		}
+		if nw > 1 {
+			v.Label("concurrent-Write-callers:" + []string{"Client.Write", "Handle.Write"}[ei])
+		}
+	}
+	if len(c.Yields) > 0 {
+		v.Label("yield-schedule-at-send-entry")
+	}
+	var nEmpty, nShort int
+	for _, p := range plans {
+		for _, b := range p.bufs {
+			if len(b) == 0 {
+				nEmpty++
+			} else if len(b) < c03Hdr {
+				nShort++
+			}
+		}
+	}
+	if nEmpty > 0 {
+		v.Label("empty-message")
+		if nEmpty > 1 {
+			v.Label("several-empty-messages")
+		}
+	}
+	if nShort > 0 {
+		v.Label("message-shorter-than-24-bytes")
+	}
 	for _, ws := range append(append([][]c03Write{}, c.CliW...), c.SrvW...) {
 		if len(ws) > 64 {
 			v.Label("stream-longer-than-one-window-block")
@@ -580,7 +668,8 @@ func c03Run(t *testing.T) func(c c03Case, v *vlib.Verdict) {
 	}
 }
 
-var c03Sizes = []int{c03Hdr, c03Hdr + 1, 100, 1000, MaxPlaintextSize - 1, MaxPlaintextSize, MaxPlaintextSize + 1, 2 * MaxPlaintextSize, 2*MaxPlaintextSize + 1, 3*MaxPlaintextSize + MaxPlaintextSize/2}
+// (rapid favours the front of a SampledFrom list: small, empty and multi-packet sizes alternate)
+var c03Sizes = []int{c03Hdr, 0, MaxPlaintextSize + 1, 100, 2 * MaxPlaintextSize, 1, MaxPlaintextSize, 1000, 2*MaxPlaintextSize + 1, c03Hdr + 1, MaxPlaintextSize - 1, c03Hdr - 1, 3*MaxPlaintextSize + MaxPlaintextSize/2}
 
 func c03Gen(t *rapid.T) c03Case {
 	c := c03Case{Hidden: rapid.Bool().Draw(t, "hidden"), Two: rapid.Bool().Draw(t, "two")}
@@ -592,10 +681,13 @@ func c03Gen(t *rapid.T) c03Case {
 			out[i] = rapid.SliceOfN(rapid.Custom(func(t *rapid.T) c03Write {
 				w := c03Write{Seed: rapid.Uint64().Draw(t, "seed")}
 				w.Size = rapid.OneOf(rapid.SampledFrom(c03Sizes), rapid.IntRange(c03Hdr, 3000)).Draw(t, "size")
-				// several concurrent writers only send whole messages (a multi-packet Write is not atomic)
-				w.Msg = n > 1 || rapid.Bool().Draw(t, "msg")
-				if n > 1 && w.Size > MaxPlaintextSize {
-					w.Size = MaxPlaintextSize
+				// Concurrent writers use Write as well as WriteMsg. A Write of at most MaxPlaintextSize bytes is one packet;
+				// a larger one is split into packets that may interleave with those of other writers, which the oracle
+				// allows: it compares the multiset of packets-worth of bytes ("every byte accepted ... is delivered"),
+				// and demands order only from a single writer.
+				w.Msg = rapid.Bool().Draw(t, "msg")
+				if n > 1 && w.Size > MaxPlaintextSize && rapid.IntRange(0, 2).Draw(t, "keepBig") != 0 {
+					w.Size = MaxPlaintextSize // keep most concurrent calls single-packet (cost)
 				}
 				return w
 			}), 0, 6).Draw(t, label+"writes")
@@ -603,18 +695,30 @@ func c03Gen(t *rapid.T) c03Case {
 		return out
 	}
 	c.CliW, c.SrvW = writers("cli"), writers("srv")
+	if len(c.CliW) > 1 || len(c.SrvW) > 1 {
+		// concurrent writers: their calls start close together and pause for a drawn time at the entry of the send path,
+		// so that overlapping calls (one writer between accepting the bytes and sealing them while another starts) are common
+		c.Yields = rapid.SliceOfN(rapid.SampledFrom([]int{0, 0, 1, 20, 300, 900, 1000, 1100, 2500}), 0, 8).Draw(t, "yields")
+		c.NoGap = rapid.Bool().Draw(t, "noGap")
+	}
 	if rapid.IntRange(0, 4).Draw(t, "long") == 0 {
 		// long stream: one writer per side sends many small messages, the script replays datagrams at a distance
 		stream := func(label string) ([][]c03Write, int) {
 			n := rapid.SampledFrom([]int{3, 40, 66, 70, 130, 200, 450, 520, 700}).Draw(t, label+"len")
 			ws := make([]c03Write, n)
 			sd := rapid.Uint64().Draw(t, label+"seed")
+			// every k-th message of the stream is the empty message (0: none)
+			empties := rapid.SampledFrom([]int{0, 0, 2, 4, 7}).Draw(t, label+"emptyEvery")
 			for i := range ws {
 				ws[i] = c03Write{Msg: true, Size: c03Hdr + i%3, Seed: sd + uint64(i)}
+				if empties > 0 && i%empties == empties-1 {
+					ws[i].Size = 0
+				}
 			}
 			return [][]c03Write{ws}, n
 		}
 		var nc, ns int
+		c.Yields, c.NoGap = nil, false
 		c.CliW, nc = stream("cli")
 		c.SrvW, ns = stream("srv")
 		c.Script = rapid.SliceOfN(rapid.Custom(func(t *rapid.T) c03Action {
